@@ -85,9 +85,15 @@ func (d *ufsDag) pbNode(ufs []byte, links []dagpb.PBLink) ipld.Link {
 	return l
 }
 
+// ufsMode: when >= 0 every UnixFS node built carries this Mode field (UnixFS 1.5 metadata)
+var ufsMode = -1
+
 func ufsData(typ int64, content []byte, blocksizes []uint64) []byte {
 	n, err := ufsbuilder.BuildUnixFS(func(b *ufsbuilder.Builder) {
 		ufsbuilder.DataType(b, typ)
+		if ufsMode >= 0 {
+			ufsbuilder.Permissions(b, ufsMode)
+		}
 		if content != nil {
 			ufsbuilder.Data(b, content)
 		}
@@ -397,6 +403,22 @@ func snapshot(root string) []fsEntry {
 	return out
 }
 
+// permSnapshot: permission bits of everything that is not a symlink (the bits of a link are not settable),
+// as fsEntries so that the same outside filter applies.
+func permSnapshot(root string) []fsEntry {
+	var out []fsEntry
+	filepath.Walk(root, func(p string, fi os.FileInfo, err error) error {
+		if err != nil || p == root || fi.Mode()&os.ModeSymlink != 0 {
+			return nil
+		}
+		rel, _ := filepath.Rel(root, p)
+		out = append(out, fsEntry{rel, "m", fmt.Sprintf("%o", fi.Mode()&(os.ModePerm|os.ModeSetuid|os.ModeSetgid|os.ModeSticky))})
+		return nil
+	})
+	sort.Slice(out, func(i, j int) bool { return "/"+out[i].rel < "/"+out[j].rel })
+	return out
+}
+
 func entriesStr(es []fsEntry) string {
 	if len(es) == 0 {
 		return "-"
@@ -419,6 +441,12 @@ func famC17(g *Gen, o *Out, n int, thorough bool) {
 	for c := 0; c < n; c++ {
 		sb := filepath.Join(base, fmt.Sprintf("s%d", c))
 		os.RemoveAll(sb)
+		// every fourth archive carries UnixFS 1.5 permission bits on all its nodes (links included): whatever
+		// the tool does with them, it does inside the output directory
+		ufsMode = -1
+		if c%4 == 3 {
+			ufsMode = []int{0o777, 0, 0o600, 0o4755}[(c/4)%4]
+		}
 		os.MkdirAll(filepath.Join(sb, "victim", "d"), 0o755)
 		os.WriteFile(filepath.Join(sb, "victim", "f"), []byte("precious"), 0o644)
 		os.WriteFile(filepath.Join(sb, "victim", "d", "g"), []byte("also"), 0o644)
@@ -559,6 +587,7 @@ func famC17(g *Gen, o *Out, n int, thorough bool) {
 		os.WriteFile(carPath, carBuf.b, 0o644)
 
 		before := snapshot(sb)
+		permsBefore := permSnapshot(sb)
 		// the engine's trace, from the same archive through the same link system set-up as the tool
 		cf, _ := os.Open(carPath)
 		rstore, err := carstorage.OpenReadable(cf)
@@ -586,6 +615,7 @@ func famC17(g *Gen, o *Out, n int, thorough bool) {
 				os.Symlink(filepath.Join(sb, "real2", "sub"), filepath.Join(sb, "lnk"))
 				outArg = filepath.Join(sb, "lnk") + "/../newout"
 				before = snapshot(sb)
+				permsBefore = permSnapshot(sb)
 			}
 			args := []string{"extract", "-f", carPath}
 			if g.pick(2) == 0 {
@@ -627,6 +657,16 @@ func famC17(g *Gen, o *Out, n int, thorough bool) {
 		}
 		if resolved == "" && entriesStr(before) != entriesStr(after) {
 			outside = "changed"
+		}
+		// permission bits count as content of what is outside: same entries, same bits
+		permsAfter := permSnapshot(sb)
+		if resolved != "" && entriesStr(filter(permsBefore)) != entriesStr(filter(permsAfter)) {
+			outside = "changed"
+		}
+		for _, e := range permsBefore { // whatever happened, put the bits back so that the sandbox can be removed
+			var m uint32
+			fmt.Sscanf(e.data, "%o", &m)
+			os.Chmod(filepath.Join(sb, e.rel), os.FileMode(m))
 		}
 		res := "ok"
 		if xerr != nil {
